@@ -397,6 +397,7 @@ class DB:
                 continue
             seen.add(key)
             f.__init__(fj, j['unit'])
+            f.db = self
             self.functions.append(f)
             self.by_qn.setdefault(f.qn, []).append(f)
         for r in j['records']:
